@@ -232,6 +232,28 @@ def check_property(prop, tier, spec):
                                       f'{s["goals"]} vs concrete {rr["outcome"]} {rr.get("label")} {rr["goals"]} '
                                       f'args={s["args"]} weights={s["weights"]} {rr.get("detail", "")[:300]}')
 
+        # ---- the same sample paths on a dyadic float grid (properties that claim exactness on representable grids) ----
+        grid_validated = 0
+        if spec.get('grid_replay') and not violations:
+            scale = 2.0 ** -20
+            gcases = [dict(c, time_scale=scale) for c in cases]
+            grep_ = replay_cases(gcases, workdir, 'grid', profile=False) or []
+            for (job, s), c, rr in zip(expect, gcases, grep_):
+                if rr['outcome'] == 'ok':
+                    grid_validated += 1
+                elif rr['outcome'] == 'violation':
+                    case = dict(c, property=prop, label=rr['label'], detail=rr.get('detail', ''), job=job, analysis=s.get('sub'),
+                                found_by='concrete replay of a solver-generated sample path with all times multiplied by 2**-20')
+                    h = hashlib.sha1(json.dumps(case, sort_keys=True).encode()).hexdigest()[:10]
+                    rpath = os.path.join(ROOT, 'replays', f'{prop}-{job}-grid-{h}.json')
+                    with open(rpath, 'w') as fp:
+                        json.dump(case, fp, indent=1)
+                    p = subprocess.run([PLAIN_PY, '-m', 'engine.replay', rpath], cwd=ROOT, env=_env(), capture_output=True, text=True, timeout=600)
+                    if p.returncode == 0:
+                        violations.append((job, rr['label'], rr.get('detail', '') + ' [found by replaying a sample path on CPython with all '
+                                           'times multiplied by 2**-20 (exactly representable grid)]', rpath))
+                        break
+
         # ---- vacuity ------------------------------------------------------------
         reached = {}
         for r in results:
@@ -310,6 +332,7 @@ def check_property(prop, tier, spec):
                 'per_job': [{'job': r['job'], 'verdict': r['verdict'], 'paths': r.get('paths', 0),
                              'cpu_s': r.get('cpu_s'), 'z3_queries': r.get('z3_queries')} for r in results],
                 'heaviest_analyses': sorted((h for r in results for h in r.get('heaviest', [])), key=lambda h: -h['cpu_s'])[:10],
+                'sample_paths_replayed_on_dyadic_float_grid': grid_validated,
                 'per_analysis': sorted((a for r in results for a in r.get('analysis_stats', [])), key=lambda a: a['name']),
                 'inconclusive': [{'job': j, 'why': w} for j, w in inconclusive],
                 'known_findings_seen': [k[0].get('id') for k in known_hits],
